@@ -5,6 +5,7 @@ import LcModel.Kv.Model
 import LcModel.Pool.Model
 import LcModel.Prove.Model
 import LcModel.Index.Model
+import LcModel.Sync.Model
 
 /-- `lcmodel <layer>`: one operation per stdin line, one answer per stdout line. -/
 partial def loop (h : IO.FS.Stream) (out : IO.FS.Stream) (f : String → String) : IO Unit := do
@@ -34,5 +35,6 @@ def main (args : List String) : IO UInt32 := do
   | ["pool"] => loopSt stdin stdout Pool.stepLine ⟨64, [], [], []⟩; return 0
   | ["prove"] => loopSt stdin stdout Prove.stepLine Prove.initSt; return 0
   | ["index"] => loopSt stdin stdout Index.stepLine ⟨[], [], [], [], [], []⟩; return 0
+  | ["sync"] => loopSt stdin stdout Sync.stepLine ⟨[], 0, [], []⟩; return 0
   | ["quorum"] => loopSt stdin stdout Quorum.step ⟨1, 1, [0], []⟩; return 0
   | _ => IO.eprintln "usage: lcmodel <layer>"; return 2
